@@ -47,6 +47,11 @@ class EndOfScript(BaseException):
     only catch Exception, so it unwinds to the driver)."""
 
 
+class NotEnabled(Exception):
+    """The specification says an environment action is possible (the start timer / the clock is pending) but the real engine
+    has no such item: a conformance failure of the engine, not of the harness."""
+
+
 class HarnessDrift(Exception):
     """The real engine no longer has the plumbing the driver identifies items by (machinery error, not a verdict)."""
 
@@ -328,11 +333,14 @@ class Driver:
         self.pos = 0
         self.obs = []
         self.need_obs = True       # the initial observation
+        self.not_enabled = None
         try:
             self._settle()
             self._play(None)
         except EndOfScript:
             pass
+        except NotEnabled as e:
+            self.not_enabled = "%s (action %d: %s)" % (e, self.pos, self.hist[self.pos - 1])
         return self.obs
 
     def _record(self):
@@ -397,7 +405,7 @@ class Driver:
                     self.run_item(t)
                 d = self._find("delay")
                 if d is None:
-                    raise HarnessDrift("Fire: no start timer / delay item is pending")
+                    raise NotEnabled("Fire: no start timer / launch delay is pending in the real engine")
                 n0 = set(id(i) for i in self.live_items())
                 self.run_item(d)
                 if late:
@@ -421,7 +429,7 @@ class Driver:
             elif a == "Tick":
                 t = self._find("tick")
                 if t is None:
-                    raise HarnessDrift("Tick: the periodic clock is not pending")
+                    raise NotEnabled("Tick: the periodic clock of the real engine is not pending (stream ended?)")
                 self.run_item(t)
             else:
                 raise HarnessDrift("unknown action %r" % a)
